@@ -12,7 +12,7 @@
 (*     reach every (rule, alternative, preceding token kind)                                        *)
 (*  4. the predictive recogniser Pda / Accepts (C18): first alternative whose first token is the    *)
 (*     current token, the empty alternative when it is reached; the WHOLE input must be consumed    *)
-EXTENDS Integers, Sequences, FiniteSets, TLC, Json, GrammarData
+EXTENDS Integers, Sequences, SequencesExt, FiniteSets, TLC, Json, GrammarData
 
 G == Plain
 Rules == DOMAIN G
@@ -60,14 +60,18 @@ SeqY(Y, r, alt) ==
                   ELSE IF e.v \in Rules THEN Y[e.v] ELSE NoY
              t == SeqY(Y, r, Tail(alt))
          IN  IF h.def /\ t.def THEN [def |-> TRUE, y |-> h.y \o t.y] ELSE NoY
-Better(a, b) == a.def /\ (~b.def \/ Len(a.y) < Len(b.y))
-RECURSIVE BestFrom(_, _, _, _)
-BestFrom(Y, r, i, best) ==
+\* rev = FALSE: among the shortest yields the one of the FIRST alternative; rev = TRUE: of the LAST one
+\* (the two completions together exercise the first and the last alternatives of every rule)
+Better(a, b, rev) == a.def /\ (~b.def \/ Len(a.y) < Len(b.y) \/ (rev /\ Len(a.y) = Len(b.y)))
+RECURSIVE BestFrom(_, _, _, _, _)
+BestFrom(Y, r, i, best, rev) ==
     IF i > Len(G[r]) THEN best
-    ELSE LET c == SeqY(Y, r, G[r][i]) IN BestFrom(Y, r, i + 1, IF Better(c, best) THEN c ELSE best)
-RECURSIVE FixY(_)
-FixY(Y) == LET Z == [r \in Rules |-> BestFrom(Y, r, 1, Y[r])] IN IF Z = Y THEN Y ELSE FixY(Z)
-MinYield == FixY([r \in Rules |-> NoY])
+    ELSE LET c == SeqY(Y, r, G[r][i]) IN BestFrom(Y, r, i + 1, IF Better(c, best, rev) THEN c ELSE best, rev)
+RECURSIVE FixY(_, _, _)
+FixY(Y, rev, fuel) == LET Z == [r \in Rules |-> BestFrom(Y, r, 1, Y[r], rev)]
+                      IN  IF Z = Y \/ fuel = 0 THEN Y ELSE FixY(Z, rev, fuel - 1)
+MinYield    == FixY([r \in Rules |-> NoY], FALSE, 500)
+MinYieldRev == FixY([r \in Rules |-> NoY], TRUE, 500)
 Productive == {r \in Rules : MinYield[r].def}
 Unproductive == {<<"Productive", r, 0, 0, "">> : r \in Rules \ Productive}
 
@@ -88,11 +92,11 @@ Elem(e, r) == [tok |-> e.tok, v |-> e.v, own |-> r]
 Push(r, i) == [k \in 1..Len(G[r][i]) |-> Elem(G[r][i][k], r)]
 StartStack == <<[tok |-> FALSE, v |-> Start, own |-> ""]>>
 
-RECURSIVE CompleteSt(_)
-CompleteSt(st) == IF Len(st) = 0 THEN <<>>
-                  ELSE LET e == Head(st)
-                       IN  (IF e.tok THEN <<[k |-> e.v, own |-> e.own]>>
-                            ELSE IF e.v \in Productive THEN MinYield[e.v].y ELSE <<>>) \o CompleteSt(Tail(st))
+RECURSIVE CompleteSt(_, _)
+CompleteSt(st, Y) == IF Len(st) = 0 THEN <<>>
+                     ELSE LET e == Head(st)
+                          IN  (IF e.tok THEN <<[k |-> e.v, own |-> e.own]>>
+                               ELSE IF e.v \in Productive THEN Y[e.v].y ELSE <<>>) \o CompleteSt(Tail(st), Y)
 
 \* ------------------------------------------------------------------ 4. predictive recogniser ----
 \* The alternative of rule r taken when the current token kind is c: alternatives are tried in
@@ -105,27 +109,37 @@ Choice(r, c, i) == IF i > Len(G[r]) THEN 0
                         ELSE IF ~a[1].tok THEN 0 - 1
                         ELSE IF a[1].v = c THEN i ELSE Choice(r, c, i + 1)
 
-\* Runs the predictive machine on the token kinds toks (the end-of-input token is NOT part of toks;
-\* beyond the end the current token is "EOF").  Result: done = the start rule was completed,
-\* pos = 1 + number of tokens consumed, fir = the alternatives taken, in order (including empty
-\* ones), cons = for every consumed token the rule whose alternative contained it.
-RECURSIVE Pda(_, _, _, _, _)
-Pda(st, toks, pos, fir, cons) ==
-    IF Len(st) = 0 THEN [done |-> TRUE, pos |-> pos, fir |-> fir, cons |-> cons]
-    ELSE LET top == Head(st)
-             c == IF pos <= Len(toks) THEN toks[pos] ELSE "EOF"
-             fail == [done |-> FALSE, pos |-> pos, fir |-> fir, cons |-> cons]
-         IN  IF top.tok
-             THEN IF top.v = c THEN Pda(Tail(st), toks, pos + 1, fir, Append(cons, top.own)) ELSE fail
-             ELSE IF top.v \notin Rules THEN fail
-             ELSE LET i == Choice(top.v, c, 1)
-                  IN  IF i <= 0 THEN fail
-                      ELSE Pda(Push(top.v, i) \o Tail(st), toks, pos, Append(fir, [r |-> top.v, i |-> i]), cons)
+\* Expands rules on top of the stack until a token is on top, the stack is empty, or no
+\* alternative applies (ok = FALSE); c is the current token kind.
+RECURSIVE Expand(_, _, _)
+Expand(st, c, fir) ==
+    IF Len(st) = 0 \/ Head(st).tok THEN [st |-> st, fir |-> fir, ok |-> TRUE]
+    ELSE LET top == Head(st) IN
+         IF top.v \notin Rules THEN [st |-> st, fir |-> fir, ok |-> FALSE]
+         ELSE LET i == Choice(top.v, c, 1) IN
+              IF i <= 0 THEN [st |-> st, fir |-> fir, ok |-> FALSE]
+              ELSE Expand(G[top.v][i] \o Tail(st), c, Append(fir, [r |-> top.v, i |-> i]))
 
-Run(toks) == Pda(StartStack, toks, 1, <<>>, <<>>)
+\* One token of input.  Configuration: st = pending stack (elements of the table), fir = alternatives
+\* taken so far (the empty ones included), n = tokens consumed, live = still running, done = the
+\* start rule was completed.
+StepTok(cfg, c) ==
+    IF ~cfg.live THEN cfg
+    ELSE LET x == Expand(cfg.st, c, cfg.fir) IN
+         IF ~x.ok THEN [cfg EXCEPT !.live = FALSE, !.st = x.st, !.fir = x.fir]
+         ELSE IF Len(x.st) = 0 THEN [cfg EXCEPT !.live = FALSE, !.done = TRUE, !.st = x.st, !.fir = x.fir]
+         ELSE IF Head(x.st).v = c
+              THEN [cfg EXCEPT !.st = Tail(x.st), !.fir = x.fir, !.n = @ + 1]
+              ELSE [cfg EXCEPT !.live = FALSE, !.st = x.st, !.fir = x.fir]
+
+\* Runs the predictive machine on the token kinds toks (the end-of-input token is NOT part of toks;
+\* beyond the end the current token is "EOF", as often as the parser asks for it).  The machine
+\* stops as soon as the start rule is completed - whether input is left is judged by Accepts.
+Run(toks) == FoldLeft(StepTok, [st |-> <<[tok |-> FALSE, v |-> Start]>>, fir |-> <<>>, n |-> 0, live |-> TRUE, done |-> FALSE],
+                      toks \o <<"EOF", "EOF">>)
 
 \* C18: accepted iff the WHOLE token sequence, up to end of input, is one statement
-Accepts(toks) == LET p == Run(toks) IN p.done /\ p.pos = Len(toks) + 1
+Accepts(toks) == LET p == Run(toks) IN p.done /\ p.n >= Len(toks)
 
 \* named deviation "no end-of-input check" (Layer B, classification only): a statement followed by
 \* anything is accepted as soon as the start rule is completed
